@@ -1689,6 +1689,15 @@ class AND(LogicalBinaryOperator):
             self._is_false_ = right_value.is_false
             yield OperationResult(right_value.bindings, self._is_false_, self)
 
+    def _invert_(self):
+        """
+        A conjunction that contains a union cannot be negated result by result (see Union._invert_), the negation is
+        pushed down to the operands: not (a and b) = (not a) or (not b).
+        """
+        if any(isinstance(descendant, Union) for descendant in self._descendants_):
+            return optimize_or(self.left._invert_(), self.right._invert_())
+        return super()._invert_()
+
 
 @dataclass(eq=False, repr=False)
 class OR(LogicalBinaryOperator, ABC):
@@ -1718,6 +1727,18 @@ class OR(LogicalBinaryOperator, ABC):
         if self._parent_:
             projection.update(self._parent_._projection_(when_true))
         return projection
+
+    def _invert_(self):
+        """
+        A union yields the results of its operands separately, a Not above it would negate each of them on its own.
+        Where a union is involved the negation is built with De Morgan's law instead:
+        not (a or b) = (not a) and (not b).
+        """
+        if isinstance(self, Union) or any(
+            isinstance(descendant, Union) for descendant in self._descendants_
+        ):
+            return AND(self.left._invert_(), self.right._invert_())
+        return super()._invert_()
 
     def evaluate_left(
         self,
@@ -1778,7 +1799,6 @@ class Union(OR):
 
         yield from self.evaluate_left(sources)
         yield from self.evaluate_right(sources)
-
 
 @dataclass(eq=False, repr=False)
 class ElseIf(OR):
